@@ -11,16 +11,50 @@ use futures::io::AsyncRead;
 use lumina_node::verif::p2p::header_ex as hx_hooks;
 use verif_harness::*;
 
+/// S9: what happens on one chosen `read` call (0-based) beside chunking
+#[derive(Clone, Copy, PartialEq)]
+enum Event {
+    /// the call returns an I/O error (`Ok(Err(e)) => return Err(e)` in `read_up_to`)
+    Fail(usize),
+    /// the call never completes: `timeout` fires (`Err(_) => break`)
+    Pend(usize),
+    /// the call delivers its chunk only after `block_ms` (> the time limit): the next loop iteration
+    /// finds `time_limit.checked_sub(now.elapsed())` = None
+    Block(usize),
+}
+
+fn event_of(line: &str) -> Option<Event> {
+    if let Some(i) = arg_u64(line, "fail") {
+        Some(Event::Fail(i as usize))
+    } else if let Some(i) = arg_u64(line, "pend") {
+        Some(Event::Pend(i as usize))
+    } else {
+        arg_u64(line, "block").map(|i| Event::Block(i as usize))
+    }
+}
+
 /// reader that returns at most `cuts[i]` bytes on its i-th read (everything once cuts are used up)
 struct ChunkReader {
     data: Vec<u8>,
     pos: usize,
     cuts: Vec<u64>,
     next: usize,
+    event: Option<Event>,
+    block_ms: u64,
 }
 
 impl AsyncRead for ChunkReader {
     fn poll_read(mut self: Pin<&mut Self>, _cx: &mut Context<'_>, buf: &mut [u8]) -> Poll<std::io::Result<usize>> {
+        match self.event {
+            Some(Event::Fail(i)) if i == self.next => {
+                self.next += 1;
+                return Poll::Ready(Err(std::io::Error::new(std::io::ErrorKind::ConnectionReset, "verif: injected I/O error")));
+            }
+            // no waker registered: only the surrounding `timeout` can end this read
+            Some(Event::Pend(i)) if i == self.next => return Poll::Pending,
+            Some(Event::Block(i)) if i == self.next => std::thread::sleep(std::time::Duration::from_millis(self.block_ms)),
+            _ => {}
+        }
         let cut = if self.next < self.cuts.len() { self.cuts[self.next] as usize } else { usize::MAX };
         self.next += 1;
         let n = buf.len().min(cut).min(self.data.len() - self.pos);
@@ -102,15 +136,17 @@ struct C30 {
 }
 
 impl C30 {
-    fn read_req(&self, data: Vec<u8>, cuts: Vec<u64>) -> String {
-        let mut r = ChunkReader { data, pos: 0, cuts, next: 0 };
+    fn read_req(&self, data: Vec<u8>, cuts: Vec<u64>, event: Option<Event>) -> String {
+        // REQUEST_TIME_LIMIT is 1 s
+        let mut r = ChunkReader { data, pos: 0, cuts, next: 0, event, block_ms: 1050 };
         match self.rt.block_on(hx_hooks::codec_read_request(&mut r)) {
             Ok(req) => format!("ok {}", show_req(&req)),
             Err(_) => "err".into(),
         }
     }
-    fn read_resp(&self, data: Vec<u8>, cuts: Vec<u64>) -> String {
-        let mut r = ChunkReader { data, pos: 0, cuts, next: 0 };
+    fn read_resp(&self, data: Vec<u8>, cuts: Vec<u64>, event: Option<Event>) -> String {
+        // RESPONSE_TIME_LIMIT is 5 s
+        let mut r = ChunkReader { data, pos: 0, cuts, next: 0, event, block_ms: 5050 };
         match self.rt.block_on(hx_hooks::codec_read_response(&mut r)) {
             Ok(rs) => format!("ok {}", show_resps(&rs)),
             Err(_) => "err".into(),
@@ -325,7 +361,9 @@ impl Prop for C30 {
          position for small wires), and read back through a reader that delivers caller-chosen chunk sizes \
          (1-byte, random, larger than the rest, none). rawreq/rawresp: garbage, mutated valid wires, \
          protobuf-shaped adversarial bodies (unknown fields of all wire types, nested groups up to depth 102, \
-         non-minimal and overlong varints, wrong wire types, short payloads), premature EOF. delim: parse_delimiter \
+         non-minimal and overlong varints, wrong wire types, short payloads), premature EOF. S9: reader events on one read call — \
+         an I/O error (fail=i: before the first byte, inside delimiter / frame, on the call that would see EOF, on a call never made), \
+         a read that never completes (pend=i) or completes after the 1 s limit (block=i), requests only. delim: parse_delimiter \
          on varint boundary cases. Non-trivial = everything except uniformly random garbage; distinct = distinct (op, result)."
     }
     fn gen_ops(&mut self, rng: &mut Rng, tier: Tier, out: &mut Emitter) {
@@ -513,6 +551,55 @@ impl Prop for C30 {
                 out.op(format!("{which} data={} cuts=-", hx(&s)), &format!("{which}/nested-groups"), true);
             }
         }
+        // S9: reader events on one `read` call.  `fail=i`: I/O error on the i-th call — before the first byte,
+        // in the middle of the delimiter / of a frame, on the call that would see EOF, on a call that is never
+        // made (buffer full / after EOF).  `pend=i` / `block=i` (requests only: each costs the 1 s time limit):
+        // the i-th call never completes / completes after the limit.
+        for _ in 0..rounds * 20 {
+            let r = gen_req(rng);
+            let wire = prost::Message::encode_length_delimited_to_vec(&r);
+            let cuts: Vec<u64> = (0..rng.usize(0, 6)).map(|_| rng.range(1, (wire.len() as u64 / 2).max(2))).collect();
+            let fail = rng.usize(0, cuts.len() + 2);
+            let trunc = if rng.chance(1, 4) { format!(" trunc={}", rng.usize(0, wire.len())) } else { String::new() };
+            out.op(format!("req {} cuts={}{trunc} fail={fail}", req_line(&r), natl(&cuts)), "req/io-error", true);
+        }
+        for hl in [1019usize, 1020, 1021, 1024] {
+            // the buffer fills up (or not quite): the failing call after that is made or not
+            let r = HeaderRequest { amount: 1, data: Some(Data::Hash(rng.bytes(hl))) };
+            for fail in [1usize, 2, 3] {
+                out.op(format!("req {} cuts=1000 fail={fail}", req_line(&r)), "req/io-error-around-limit", true);
+            }
+        }
+        for _ in 0..rounds * 20 {
+            let n = rng.usize(1, 4);
+            let items = gen_items(rng, n, true);
+            let rs = parse_items(&items).unwrap();
+            let total: usize = rs.iter().map(|r| prost::Message::encode_length_delimited_to_vec(r).len()).sum();
+            let cuts: Vec<u64> = (0..rng.usize(0, 6)).map(|_| rng.range(1, (total as u64 / 2).max(2))).collect();
+            let fail = rng.usize(0, cuts.len() + 2);
+            let trunc = if rng.chance(1, 4) { format!(" trunc={}", rng.usize(0, total)) } else { String::new() };
+            out.op(format!("resp items={items} cuts={}{trunc} fail={fail}", natl(&cuts)), "resp/io-error", true);
+        }
+        for _ in 0..rounds * 10 {
+            let body = gen_pb_body(rng, 2);
+            let s = frame(&body);
+            let cuts: Vec<u64> = (0..rng.usize(0, 5)).map(|_| rng.range(1, 10)).collect();
+            let fail = rng.usize(0, cuts.len() + 2);
+            let which = if rng.bool() { "rawreq" } else { "rawresp" };
+            out.op(format!("{which} data={} cuts={} fail={fail}", hx(&s), natl(&cuts)), &format!("{which}/io-error"), true);
+        }
+        for k in 0..(if thorough { 12 } else { 4 }) {
+            let r = gen_req(rng);
+            let wire = prost::Message::encode_length_delimited_to_vec(&r);
+            let cuts: Vec<u64> = (0..rng.usize(1, 5)).map(|_| rng.range(1, wire.len() as u64 + 2)).collect();
+            let i = rng.usize(0, cuts.len() - 1);
+            let (word, tag) = if k % 2 == 0 { ("pend", "req/read-times-out") } else { ("block", "req/time-limit-passed") };
+            out.op(format!("req {} cuts={} {word}={i}", req_line(&r), natl(&cuts)), tag, true);
+        }
+        if thorough {
+            // one response read that times out (5 s)
+            out.op("rawresp data=0408011202aabb cuts=3,2 pend=1".to_string(), "rawresp/read-times-out", true);
+        }
         for _ in 0..rounds * 30 {
             let n = rng.usize(0, 40);
             let which = if rng.bool() { "rawreq" } else { "rawresp" };
@@ -522,6 +609,7 @@ impl Prop for C30 {
 
     fn run(&mut self, line: &str) -> String {
         let cuts = arg(line, "cuts").and_then(unnatl).unwrap_or_default();
+        let event = event_of(line);
         match opname(line) {
             "reset" => "ok".into(),
             "delim" => {
@@ -541,7 +629,7 @@ impl Prop for C30 {
                 if let Some(k) = arg_u64(line, "trunc") {
                     wire.truncate(k as usize);
                 }
-                format!("{ws} {}", self.read_req(wire, cuts))
+                format!("{ws} {}", self.read_req(wire, cuts, event))
             }
             "resp" => {
                 let Some(rs) = arg(line, "items").and_then(parse_items) else { return "bad-op".into() };
@@ -553,15 +641,15 @@ impl Prop for C30 {
                 if let Some(k) = arg_u64(line, "trunc") {
                     wire.truncate(k as usize);
                 }
-                format!("{ws} {}", self.read_resp(wire, cuts))
+                format!("{ws} {}", self.read_resp(wire, cuts, event))
             }
             "rawreq" => {
                 let Some(d) = arg_hex(line, "data") else { return "bad-op".into() };
-                self.read_req(d, cuts)
+                self.read_req(d, cuts, event)
             }
             "rawresp" => {
                 let Some(d) = arg_hex(line, "data") else { return "bad-op".into() };
-                self.read_resp(d, cuts)
+                self.read_resp(d, cuts, event)
             }
             _ => "bad-op".into(),
         }
